@@ -520,3 +520,16 @@ Fixpoint lookup (tab : list (N * N)) (r : N) : N :=
   | [] => 0
   | (k, c) :: t => if k =? r then c else lookup t r
   end.
+
+(* ------------------------------------------------------------------ *)
+(* WriteFile / ReadFile                                                *)
+
+(* Modelling assumption about the file system: WriteFile creates the file with os.Create, which
+   truncates, so afterwards the path holds exactly the bytes that Write produced, whatever it
+   held before ([old] is ignored); ReadFile parses the bytes the path holds. *)
+Definition write_file (cls : N -> N) (old : list N) (f : file) : list N := write_m cls f.
+Definition read_file (content : list N) : outcome file := read_m content.
+
+(* a history of WriteFile calls on one path, starting from content [old] *)
+Definition write_files (cls : N -> N) (old : list N) (fs : list file) : list N :=
+  fold_left (write_file cls) fs old.
